@@ -19,14 +19,17 @@ PROP = dict(
                "filter\" is read as: first level equals \"$share\" up to case folding (the broker's constant is \"$SHARE\" and "
                "TopicsIndex.Subscribe indexes every case variant as a shared subscription); C30_filter_literal covers the "
                "literal reading outside the other case variants.",
-    engines=[dict(hx="valid"), dict(hx="subinvalid")],
+    engines=[dict(hx="valid"), dict(hx="subinvalid"), dict(hx="subinvalid_restart", timeout=900)],
     theorems=["C30_filter", "C30_topic", "C30_shared", "C30_filter_literal", "C30_levels_ok_meaning", "C30_split_join", "C30_suback"],
     model_files="coq/Topics/Valid.v",
     rule="three observations per string (IsValidFilter(s,false), IsValidFilter(s,true), IsSharedFilter(s)); strings: every "
          "string of length <= 6 (thorough 8) over {/,+,#,$,a} (exhaustive), every concatenation of <= 5 (thorough 6) tokens "
          "from {$share,$SHARE,$SYS,$sys,g,/,+,#} (exhaustive), 29 prefix words (case variants, U+017F, U+212A, invalid "
          "UTF-8, near misses) x 25 tails, random filters of depth <= 5 with hazard levels, random byte strings.  "
-         "non-trivial = contains a wildcard or starts with '$'; distinct = distinct case lines",
+         "non-trivial = contains a wildcard or starts with '$'; distinct = distinct case lines.  subinvalid_restart (w-storage): "
+         "persistent MQTT 3.1 / 3.1.1 / 5 sessions send SUBSCRIBE packets mixing accepted with refused filters (invalid, "
+         "not authorised) on each of the four storage back ends; shutdown; restart on the same store: a refused filter "
+         "is neither in the index nor in the client state nor in the store nor anywhere after the restart",
     exhaustive=False,
     modelled="topics.go isolateParticle, IsSharedFilter, IsValidFilter (entire functions)",
     assumptions=["Go strings are byte sequences; '/', '+', '#', '$' are single bytes, so byte-level search equals rune-level search",
